@@ -386,3 +386,9 @@ META = dict(
     explanation='record-level symbolic execution of the real writer and parser with the JSON text layer stubbed by its contract',
     required_outcomes=['round trip', 'empty list'],
 )
+
+
+def validate(tier):
+    """translator validation: the interpreter in concrete mode against CPython on the functions this check encodes"""
+    from engine import validate as v
+    return v.run(['converters'], tier)
